@@ -42,7 +42,17 @@ type SolverStats struct {
 
 var debugDefs = os.Getenv("GOSYM_DEBUG_DEFS") != ""
 
+type prefixDef struct {
+	prev int // 0 = empty prefix
+	lit  Lit
+}
+
 type Solver struct {
+	qbuf       []byte
+	guardBits  []bool // guardBits[termID]: guard literal exists in the current context
+	prefixes   []prefixDef        // index = prefix id - 1
+	prefixIdx  map[prefixDef]int  // -> prefix id
+	prefixEmit map[int]bool       // emitted in the current solver context
 	where     string
 	tt        *TermTable
 	bin       string
@@ -106,12 +116,207 @@ func (s *Solver) start() {
 	}(s.lines)
 	s.emitted = map[int]bool{}
 	s.guards = map[int]bool{}
+	s.guardBits = nil
+	s.prefixEmit = map[int]bool{}
+	if s.prefixIdx == nil {
+		s.prefixIdx = map[prefixDef]int{}
+	}
 	s.vars = nil
 	s.varSet = map[int]bool{}
 	if strings.Contains(s.bin, "cvc5") {
 		s.send("(set-logic QF_BV)\n")
 	}
 	s.send("(set-option :produce-models true)\n")
+}
+
+// Prefix returns the id of the conjunction "prefix prev, then literal l".
+func (s *Solver) Prefix(prev int, l Lit) int {
+	d := prefixDef{prev, l}
+	if id, ok := s.prefixIdx[d]; ok {
+		return id
+	}
+	s.prefixes = append(s.prefixes, d)
+	id := len(s.prefixes)
+	s.prefixIdx[d] = id
+	return id
+}
+
+func (s *Solver) litText(l Lit) string {
+	id := int(l)
+	neg := false
+	if id < 0 {
+		id = -id
+		neg = true
+	}
+	g := s.guard(s.tt.terms[id-1])
+	if neg {
+		return "(not " + g + ")"
+	}
+	return g
+}
+
+// emitPrefix defines p<id> = (and p<prev> <lit>) in the current context (iteratively).
+func (s *Solver) emitPrefix(id int) {
+	var chain []int
+	for cur := id; cur != 0 && !s.prefixEmit[cur]; cur = s.prefixes[cur-1].prev {
+		chain = append(chain, cur)
+	}
+	for i := len(chain) - 1; i >= 0; i-- {
+		cur := chain[i]
+		d := s.prefixes[cur-1]
+		lt := s.litText(d.lit)
+		if d.prev == 0 {
+			s.send(fmt.Sprintf("(declare-const p%d Bool)\n(assert (= p%d %s))\n", cur, cur, lt))
+		} else {
+			s.send(fmt.Sprintf("(declare-const p%d Bool)\n(assert (= p%d (and p%d %s)))\n", cur, cur, d.prev, lt))
+		}
+		s.prefixEmit[cur] = true
+		s.Stats.Defs++
+	}
+}
+
+// CheckLits decides the conjunction of lits and extra (0 = none); the pc
+// literals are known to be duplicate-free apart from repeats, which the solver
+// tolerates. key identifies the literal set for the cache.
+func (s *Solver) CheckLits(lits []Lit, extra Lit, wantModel bool, key string) (Result, Model) {
+	if r, ok := s.cache[key]; ok && (!wantModel || r != Sat) {
+		s.Stats.CacheHits++
+		return r, nil
+	}
+	if s.Stats.Defs-s.defsBase > s.defsLimit {
+		s.softReset()
+	}
+	start := time.Now()
+	buf := s.qbuf[:0]
+	buf = append(buf, "(check-sat-assuming ("...)
+	emit := func(l Lit) {
+		id := int(l)
+		neg := false
+		if id < 0 {
+			id = -id
+			neg = true
+		}
+		tid := id - 1
+		if tid >= len(s.guardBits) || !s.guardBits[tid] {
+			s.guard(s.tt.terms[tid])
+			for tid >= len(s.guardBits) {
+				s.guardBits = append(s.guardBits, false)
+			}
+			s.guardBits[tid] = true
+		}
+		if neg {
+			buf = append(buf, "(not g"...)
+			buf = strconv.AppendInt(buf, int64(tid), 10)
+			buf = append(buf, ") "...)
+		} else {
+			buf = append(buf, 'g')
+			buf = strconv.AppendInt(buf, int64(tid), 10)
+			buf = append(buf, ' ')
+		}
+	}
+	for _, l := range lits {
+		emit(l)
+	}
+	if extra != 0 {
+		emit(extra)
+	}
+	buf = append(buf, "))\n"...)
+	s.qbuf = buf
+	if s.dump != nil {
+		s.dump.Write(buf)
+	}
+	s.in.Write(buf)
+	s.in.Flush()
+	s.Stats.Queries++
+	res := s.readVerdict()
+	var model Model
+	if res == Sat && wantModel {
+		model = s.getModel()
+		if model == nil {
+			res = Unknown
+		}
+	}
+	s.Stats.Time += time.Since(start)
+	switch res {
+	case Sat:
+		s.Stats.Sat++
+	case Unsat:
+		s.Stats.UnsatN++
+	default:
+		s.Stats.UnknownN++
+	}
+	s.cache[key] = res
+	return res, model
+}
+
+// CheckPrefix decides prefix ∧ extra (extra == 0: none).
+func (s *Solver) CheckPrefix(prefix int, extra Lit, wantModel bool) (Result, Model) {
+	key := fmt.Sprintf("P%d|%d", prefix, int(extra))
+	if r, ok := s.cache[key]; ok && (!wantModel || r != Sat) {
+		s.Stats.CacheHits++
+		return r, nil
+	}
+	if s.Stats.Defs-s.defsBase > s.defsLimit {
+		s.softReset()
+	}
+	start := time.Now()
+	var sb strings.Builder
+	sb.WriteString("(check-sat-assuming (")
+	if prefix != 0 {
+		s.emitPrefix(prefix)
+		fmt.Fprintf(&sb, "p%d ", prefix)
+	}
+	if extra != 0 {
+		sb.WriteString(s.litText(extra))
+	}
+	sb.WriteString("))\n")
+	s.send(sb.String())
+	s.in.Flush()
+	s.Stats.Queries++
+	res := s.readVerdict()
+	var model Model
+	if res == Sat && wantModel {
+		model = s.getModel()
+		if model == nil {
+			res = Unknown
+		}
+	}
+	s.Stats.Time += time.Since(start)
+	switch res {
+	case Sat:
+		s.Stats.Sat++
+	case Unsat:
+		s.Stats.UnsatN++
+	default:
+		s.Stats.UnknownN++
+	}
+	s.cache[key] = res
+	return res, model
+}
+
+func (s *Solver) readVerdict() Result {
+	deadline := time.Duration(s.timeoutMs)*time.Millisecond + 10*time.Second
+	for {
+		l, ok := s.readLine(deadline)
+		if !ok {
+			s.Stats.Errors = append(s.Stats.Errors, "solver read timeout/eof")
+			s.restart()
+			return Unknown
+		}
+		l = strings.TrimSpace(l)
+		switch {
+		case l == "sat":
+			return Sat
+		case l == "unsat":
+			return Unsat
+		case l == "unknown" || l == "timeout":
+			return Unknown
+		case strings.HasPrefix(l, "(error"):
+			if len(s.Stats.Errors) < 20 {
+				s.Stats.Errors = append(s.Stats.Errors, l)
+			}
+		}
+	}
 }
 
 func (s *Solver) Close() {
@@ -145,6 +350,8 @@ func (s *Solver) softReset() {
 	s.send("(set-option :produce-models true)\n")
 	s.emitted = map[int]bool{}
 	s.guards = map[int]bool{}
+	s.guardBits = nil
+	s.prefixEmit = map[int]bool{}
 	s.vars = nil
 	s.varSet = map[int]bool{}
 	s.Stats.Restarts++
@@ -261,7 +468,11 @@ func litKey(lits []Lit) string {
 // Check decides satisfiability of the conjunction of lits. With wantModel it
 // also returns values for every declared variable when the answer is sat.
 func (s *Solver) Check(lits []Lit, wantModel bool) (Result, Model) {
-	key := litKey(lits)
+	return s.CheckKey(lits, wantModel, litKey(lits))
+}
+
+// CheckKey is Check with a caller-supplied cache key for the literal set.
+func (s *Solver) CheckKey(lits []Lit, wantModel bool, key string) (Result, Model) {
 	if !wantModel {
 		if r, ok := s.cache[key]; ok {
 			s.Stats.CacheHits++
